@@ -16,7 +16,7 @@ NOT_CONSTRAINED = ['allow_upgrades=False only stops the upgrade being advertised
 ASSUMPTIONS = ['cooperative scheduling only']
 
 OVERSIZE = '4' + 'x' * 40
-FRAMES = ('2probe', '5', '2prob', '3probe', '2', '5x', '4x', '6', '', b'\x00', 'x', OVERSIZE, 'CLOSE', 'FAIL', '2probe ', '1')
+FRAMES = ('2probe', '5', '2prob', '3probe', '2', '5x', '4x', '6', '', b'\x00', 'x', OVERSIZE, 'CLOSE', 'FAIL', '2probe ', '1', 'ACCEPT-FAILS')
 
 
 def _send_frame(peer, f):
@@ -54,10 +54,15 @@ def _handshake(fl, a, b, n, pending, pre_send, mid_send):
             g1 = sut.get(sid)
             sut.settle()
             polls.append(g1)
-        u = sut.ws_upgrade(sid)
+        first_peer = WsPeer()
+        if frames[:1] == ['ACCEPT-FAILS']:
+            first_peer.fail_accept = True       # the connection fails while the server accepts the WebSocket
+        u = sut.ws_upgrade(sid, peer=first_peer)
         sut.settle()
         peer = u.peer
         for i, f in enumerate(frames):
+            if f == 'ACCEPT-FAILS' or first_peer.fail_accept:
+                continue
             _send_frame(peer, f)
             sut.settle()
             if i == 0 and mid_send:
